@@ -209,6 +209,10 @@ PanelChecks1(w, S, p, prop) ==
     IN << Chk(prop, "panel-count", p.count = Cardinality(S) /\ p.count2 = p.count),
           Chk(prop, "panel-entityat", p.atErr = "" /\ Len(at) = p.count /\ NoDup(at) /\ Range(at) = S),
           Chk("C10", "panel-entityat-out-of-range-panics", p.atLoPanic /\ p.atHiPanic),
+          Chk("C10", "panel-non-positive-step-panics-and-changes-nothing",
+              "stepNonPosPanic" \notin DOMAIN p \/ (p.stepNonPosPanic /\ p.count3 = p.count)),
+          Chk("C10", "panel-relation-of-other-component-panics",
+              \A j \in 1..n : (st[j].s >= 0 /\ st[j].ok /\ "relBadPanic" \in DOMAIN st[j].pos) => st[j].pos.relBadPanic),
           Chk(prop, "panel-walk", p.walkErr = "" /\ n >= 1 /\ \A j \in 1..n : stepOK(j)) >>
 
 (* The queries returned by batch operations are also subject to C03 (Count / EntityAt / Step agree). *)
